@@ -199,6 +199,17 @@ Theorem deletes_only_own_earlier_outputs :
 Proof. exact deletes_only_own_all. Qed.
 Print Assumptions deletes_only_own_earlier_outputs.
 
+(* a file that is never a reported output of any rebuild of a history (a
+   source file, a foreign file in the output directory ...) is, at the end of
+   the history, exactly what it was at the start: every history, every initial
+   tree, no symbolic links, current and pre-repair step *)
+Theorem foreign_files_untouched :
+  forall fixed opt d0 ocs p,
+    (forall res, In res (trace_gen phys_id fixed opt (init d0) ocs) -> ~ In p (map o_path (r_outputs res))) ->
+    lookup (disk (run_gen phys_id fixed opt (init d0) ocs)) p = lookup d0 p.
+Proof. exact foreign_files_untouched_all. Qed.
+Print Assumptions foreign_files_untouched.
+
 (* every rebuild of a history is a step, so the one-step theorems apply to it *)
 Theorem history_elements_are_steps :
   forall phys fixed opt st ocs res,
